@@ -182,6 +182,19 @@ func concScenarios(r *ev.Run, base lstore.Geometry) []mc.Scenario {
 				putT(o, [][]byte{o.Content})(s, m)
 			}
 		}
+		{
+			// the same on block-device blocks, with one more upload so that the released region is handed out
+			// again and written to before the stalled upload resumes (readers and writers pin their block)
+			gd := base
+			I := lstore.CASObj("I8", "", []byte("i9z8y7x6"))
+			rotate5 := func(s *lstore.Store, m *model) {
+				for _, o := range []lstore.Obj{C, F, G, H, I} {
+					putT(o, [][]byte{o.Content})(s, m)
+				}
+			}
+			add("held-buffer-rotation-dev", "A3 stored; buffer of Get(A3) obtained and consumed later || Put(B5 slow, 3 chunks) into A3's block || five block-sized uploads (A3's block is released and its region handed out again)", gd, prefillA,
+				[]concOp{heldGet, putT(B, [][]byte{B.Content[:1], B.Content[1:3], B.Content[3:]}), rotate5}, finalSweep(A, B, C, F, G, H, I))
+		}
 		add("held-buffer-rotation-mem", "A3 stored; buffer of Get(A3) obtained and consumed later || Put(B5 slow, 3 chunks) into A3's block || four block-sized uploads (A3's block is released and further blocks are allocated)", g, prefillA,
 			[]concOp{heldGet, putT(B, [][]byte{B.Content[:1], B.Content[1:3], B.Content[3:]}), rotate}, finalSweep(A, B, C, F, G, H))
 	}
